@@ -27,7 +27,10 @@ PROPERTIES = {
             "for each order is the same requests served one after the other by one fresh manager; in that reference run every request is "
             "additionally re-run by a manager of its own against a device replaying the recorded answers of its block (same exchanges, "
             "same reply required: the reply is built from the request's own exchanges); two request sets use a device whose state moves "
-            "with every block of an advance and that abandons a two-block advance half way",
+            "with every block of an advance and that abandons a two-block advance half way; one set has a uiHeartbeat, one a legacy-mode "
+            "manager with a write error; in the reference every exchange must come from the serving thread and a block may start "
+            "with a re-opening of the link only after a device-error reply",
+            "replies_not_crossed: the protocol object is a stub whose outcome per client is a solver variable (6 kinds)",
         ],
         "level_text": "bounded symbolic exploration of schedules: the schedule is a vector of 14 solver variables consumed at the decision "
                       "points of the real server code; oracle = linearisability with contiguous device blocks against the sequential runs + per-request isolation replay",
